@@ -686,6 +686,9 @@ func (w *World) onStore(n *Node, kind string, msg interface{}, ok bool) {
 		w.checkC07Act(n, h, v, hash, "stored a proposal")
 	}
 	if !own && w.checks("C08") {
+		if cur := n.height(); cur != h {
+			w.violate("C08", "inauthentic-stored/"+k.String()+"/other-height", "n%d, deciding h%d, stored %s (h%d,v%d) claimed by %s: a message influences a node only at the height it is for", n.idx, cur, k, h, v, string(sender))
+		}
 		w.checkC08Store(n, k, h, v, hash, sender, sig)
 	}
 	if !own && w.checks("C18") && h == n.height() {
@@ -701,6 +704,11 @@ func (w *World) onStore(n *Node, kind string, msg interface{}, ok bool) {
 			w.probe("leader-judged")
 			if !ld.Equal(n.id) {
 				w.violate("C18", "vc-leader-mismatch", "n=%d: n%d stored a vote for (h%d, view %d) although the member at (view mod n)=%d is %s", len(c), n.idx, h, v, v%uint64(len(c)), string(ld))
+			}
+		case KP: // the member at (view mod n) never prepares its own proposal: its PREPARE is not counted, for any view
+			w.probe("leader-judged")
+			if ld.Equal(sender) {
+				w.violate("C18", "prepare-of-leader-counted", "n=%d: n%d stored a PREPARE for (h%d, view %d) from %s, who is the member at (view mod n)=%d", len(c), n.idx, h, v, string(sender), v%uint64(len(c)))
 			}
 		}
 	}
